@@ -95,6 +95,9 @@ def check_rle(rep, tier, rng, drv, run, parts=("rt", "ops")):
                 ("L", [rng.randint(0, top) for _ in range(8)]), ("R", 9, 0)]
         streams.append((w, runs))
     hist = []
+    # a run header of 5 varint bytes: skipping 2^27+3 values is cheap for an RLE run, then the next run must be found
+    hist.append((8, [("R", (1 << 27) + 3, 200), ("R", 4, 9)], ["b5", "s%d" % ((1 << 27) - 2), "b3", "g", "h"]))
+    hist.append((3, [("L", [1, 2, 3, 4, 5, 6, 7, 0]), ("R", 1 << 20, 5), ("R", 2, 1)], ["b9", "s%d" % ((1 << 20) - 2), "b4", "h"]))
     opsalpha = ["g", "b1", "b3", "b8", "b11", "s1", "s2", "s7", "s9", "h", "b0", "s0"]
     depth = 3 if tier == "quick" else 4
     for w, runs in streams[:2]:
@@ -109,7 +112,10 @@ def check_rle(rep, tier, rng, drv, run, parts=("rt", "ops")):
         data = rle_ref.enc_runs(w, runs)
         lines.append("rle_ops %d %s %s" % (w, vlib.hexs(data), " ".join(ops))); meta.append(("ops", w, runs, ops))
     impl, p1 = run_sharded(drv, lines)
-    model, p2 = run_sharded(run, lines)
+    # counts beyond ~10^5 are not replayed on the extracted model (unary nat arguments): implementation-side oracle only
+    def too_big(m):
+        return m[0] == "ops" and any(int(o[1:] or 0) > 200000 for o in m[3])
+    model, p2 = run_sharded(run, ["rle_ops 1 - h" if too_big(m) else li for li, m in zip(lines, meta)])
     for pr in p1:
         rep.violation("RLE entry point crashed / sanitizer report (rc=%s): %s" % (pr[1], pr[2][-500:]), {"case": pr[3]})
     for pr in p2:
@@ -137,7 +143,7 @@ def check_rle(rep, tier, rng, drv, run, parts=("rt", "ops")):
             if bad:
                 rep.violation("streaming RLE decoder disagrees with the one-shot content under chunking/skipping: %s" % a[:200],
                               {"case": li, "impl": a, "expected": want})
-            elif a != b:
+            elif a != b and not too_big(m):
                 rep.tie_broken("RleModel stream operations differ from the implementation: model %s / impl %s" % (b[:160], a[:160]), li)
             dist["ops"] += 1
     dist["rt_structured"] -= n_ex
@@ -145,6 +151,27 @@ def check_rle(rep, tier, rng, drv, run, parts=("rt", "ops")):
     if "rt" in parts:
         rep.sample({"op": "rle_rt", "case": lines[n_ex + 5][:200]})
     rep.sample({"op": "rle_ops", "case": lines[-1][:200]})
+
+
+def check_rle_long_runs(rep, tier, rng, drv):
+    """Round trips whose run header needs 3, 4 or 5 varint bytes, through all three one-shot decoders (decode_all,
+    decode_levels, decode_levels_prefixed); the comparison with the input happens inside the driver."""
+    lines = []
+    for w in (1, 2, 7, 12):
+        for k in (0, 3, 8):
+            for cnt in ((1 << 13) + 1, (1 << 20) - 1, 1 << 20, (1 << 20) + 1 + k):
+                lines.append("rle_rtrun %d %d %d %d" % (w, k, (1 << w) - 1, cnt))
+    if tier == "thorough":
+        lines += ["rle_rtrun 1 5 1 %d" % ((1 << 27) + 9)]
+    out, probs = run_sharded(drv, lines)
+    for pr in probs:
+        rep.violation("RLE entry point crashed on a long run: %s" % pr[2][-400:], {"case": pr[3]})
+    for li, a in zip(lines, out):
+        rep.count(li)
+        if not a.startswith("OK ") or "all=-1 levels=-1 prefixed=-1" not in a:
+            rep.violation("RLE round trip of a long run fails on the implementation (first differing index per decoder, -1 = equal): %s" % a,
+                          {"case": li, "impl": a, "expected_suffix": "all=-1 levels=-1 prefixed=-1"})
+    rep.cov.setdefault("input_distribution", {})["rle_long_runs"] = len(lines)
 
 
 def check_bitpack(rep, tier, rng, drv, run):
@@ -247,6 +274,7 @@ def run(tier):
     except ImportError:
         pass
     check_rle(rep, tier, rng, drv, run_)
+    check_rle_long_runs(rep, tier, rng, drv)
     try:
         import c11_enc2
     except ImportError:
@@ -273,6 +301,8 @@ def replay(path):
     if err:
         print(err[-2000:])
     t = case.split()
+    if t[0] == "rle_rtrun" and out:
+        return 0 if "all=-1 levels=-1 prefixed=-1" in out[0] else 1
     if t[0] == "rle_rt" and out:
         want = ",".join(t[2:]) if len(t) > 2 else "-"
         return 0 if (out[0].split()[0] == "OK" and out[0].split()[-1] == want) else 1
